@@ -224,6 +224,7 @@ def _auto_include(fn, ty, U):
                 g.methods.append(Entry(kind='fn', name=fn, file=rel, impl=g.header, qualname='%s::%s' % (ty, fn),
                                        note='auto-included (called from a function under contract; no contract)'))
                 g.methods[0].auto = True
+                _try_inline(U, rf, g.methods[0], rf.find_fn(fn, (blk['body_open'] + 1, blk['end'] - 1), rf.depth[blk['body_open']] + 1))
                 U.entries.insert(_last_code_index(U), g)
                 return True
         else:
@@ -233,9 +234,24 @@ def _auto_include(fn, ty, U):
                 continue
             e = Entry(kind='fn', name=fn, file=rel, note='auto-included (no contract)')
             e.auto = True
+            _try_inline(U, rf, e, rf.find_fn(fn, None, 0))
             U.entries.insert(_last_code_index(U), e)
             return True
     return False
+
+
+def _try_inline(U, rf, entry, it):
+    """D30 (vlib/inline.py): a new helper that is a plain expression body is inlined at its call sites; it is then
+    emitted external_body (its body is checked in the context of every inlined call instead)"""
+    from .inline import helper_info
+    info = helper_info(rf.src[it['header_start']:it['end']])
+    if info is None:
+        return
+    if not hasattr(U, 'inline_helpers'):
+        U.inline_helpers = {}
+    U.inline_helpers[info['name']] = info
+    entry.trusted = True
+    entry.note = 'auto-included new helper without a contract: inlined at its call sites (D30), emitted external_body'
 
 
 def _last_code_index(U):
